@@ -91,7 +91,7 @@ def check(run):
         if tag == 'tcp':
             run.clause('armed while non-empty: every path that queues an entry re-arms m_timer for the front entry')
         ev_arm = lambda f: [c for c in f.calls() if (q.callee_name(c) or '').endswith('high_resolution_timer::expires_at') and q.render(f, c.get('obj')) == 'm_timer' and c.get('args') and q.render(f, c['args'][0]) == 'm_queue.front().completion_time']
-        ev_wait = lambda f: [c for c in f.calls() if q.callee_name(c) == handlers.TIMER_WAIT and q.render(f, c.get('obj')) == 'm_timer' and 'on_lookup' in q.render(f, c)]
+        ev_wait = lambda f: [c for c in f.calls() if q.callee_name(c) == handlers.TIMER_WAIT and q.render(f, c.get('obj')) == 'm_timer' and ('on_lookup' in q.render(f, c) or any((fx.by_usr(u) or [None])[0] is not None and fx.by_usr(u)[0].norm.endswith('::on_lookup') for u in q.completion_targets(f, c)))]
         for site in inserts + appends:
             arms = q.sites(ar, ev_arm)      # directly or inside a helper called on this resolver
             waits = q.sites(ar, ev_wait)
